@@ -801,9 +801,17 @@ class CSSStyleSheet(cssutils.stylesheets.StyleSheet):
                 and self.namespaces[rule.prefix] == rule.namespaceURI
             ):
                 # no doublettes
+                oldrules = list(self._cssRules)
                 self._cssRules.insert(index, rule)
                 if _clean:
-                    self._cleanNamespaces()
+                    try:
+                        self._cleanNamespaces()
+                    except xml.dom.DOMException:
+                        # a namespace still in use would be lost: undo all
+                        self._cssRules[:] = oldrules
+                        for r in oldrules:
+                            r._parentStyleSheet = self
+                        raise
 
         # @variables
         elif rule.type == rule.VARIABLES_RULE:
